@@ -15,3 +15,7 @@ sed "s#=> /repo#=> $REPO#" "$VERIF/harness/go.mod" > "$SCR/go.mod"
 cp "$REPO/go.sum" "$SCR/go.sum"
 cd "$VERIF/harness"
 go build -modfile="$SCR/go.mod" -overlay "$SCR/ov/overlay.json" -tags verif -o "$SCR/vcheck" .
+# the instrumented command-line binary (subprocess-mode exploration, C11)
+if [ "${VERIF_BUILD_CLI:-0}" = 1 ]; then
+  (cd "$REPO" && go build -overlay "$SCR/ov/overlay.json" -tags verif -o "$SCR/goalign-instr" . && go build -o "$SCR/goalign-plain" .)
+fi
